@@ -17,7 +17,7 @@ for s in $SEEDS; do
   if python3 -c "import json,sys;sys.exit(0 if '$prop' in json.load(open('spec/properties.json')) else 1)"; then
     res=$(./bin/rvc check $prop --repo $D --evidence $D/.evidence 2>&1 | grep -E "^VIOLATION|^$prop ")
     nv=$(echo "$res" | grep -c "^VIOLATION")
-    nr=$(echo "$res" | grep "^VIOLATION" | grep -c "failing-input-replayed-on-real-code\|failing-input=")
+    nr=$(echo "$res" | grep "^VIOLATION" | grep -c "failing-input-replayed-on-real-code\|failing-input=\"[^\"]")
     first=$(echo "$res" | grep "^VIOLATION" | head -1 | sed 's/.*obligation=//; s/.*bounded-test=/bounded-test=/' | cut -c1-100)
     if [ "$nv" -gt 0 ]; then echo "| $s | $prop | DETECTED ($nv obligations, $nr with a failing input replayed on the real code; first: $first) |" >> $TMPOUT; else echo "| $s | $prop | missed |" >> $TMPOUT; fi
   else
